@@ -13,6 +13,8 @@ import (
 	"go.sia.tech/coreutils/testutil"
 	"go.sia.tech/coreutils/wallet"
 	"go.uber.org/zap"
+	"go.uber.org/zap/zapcore"
+	"go.uber.org/zap/zaptest/observer"
 
 	"verif/gen"
 	"verif/sim"
@@ -149,7 +151,8 @@ type rhpRig struct {
 	inv  string
 	net  *gen.Net
 	tree *gen.Tree
-	s    *chainSUT
+	s    *chainSUT // the host's node
+	rs   *chainSUT // the renter's node (== s unless the rig has two nodes)
 	tip  *gen.Node
 	now  time.Time
 
@@ -167,11 +170,34 @@ type rhpRig struct {
 	hostSettings       proto4.HostSettings
 	priceValidity      time.Duration
 	nAccounts          int
+	logs               *observer.ObservedLogs
+	seenLogs           int
+}
+
+// handlerPanics reports "panic in RPC handler" entries the server logged
+// since the last call (the server recovers handler panics and only logs them).
+func (r *rhpRig) handlerPanics() []string {
+	var out []string
+	all := r.logs.All()
+	for _, en := range all[r.seenLogs:] {
+		if en.Message == "panic in RPC handler" {
+			out = append(out, fmt.Sprintf("%v\n%v", en.ContextMap()["panic"], en.ContextMap()["stack"]))
+		}
+	}
+	r.seenLogs = len(all)
+	return out
+}
+
+// checkHandlerPanics turns a recovered handler panic into a violation.
+func (r *rhpRig) checkHandlerPanics(what string) {
+	if ps := r.handlerPanics(); len(ps) > 0 {
+		r.e.Violationf(r.inv+".panic", "rpc-handler-panic:"+what, "the RHP server recovered a panic in an RPC handler during %s: %s", what, ps[0])
+	}
 }
 
 func (r *rhpRig) syncAll() {
 	syncWallet(r.e, r.inv, r.s, r.hw, r.hst, 1000, func() int { return 100 })
-	syncWallet(r.e, r.inv, r.s, r.rw, r.rst, 1000, func() int { return 100 })
+	syncWallet(r.e, r.inv, r.rs, r.rw, r.rst, 1000, func() int { return 100 })
 	synctest.Wait() // the contractor follows the chain in its own goroutine
 	r.tip = r.tree.ByID[r.s.cm.Tip().ID]
 }
@@ -197,15 +223,27 @@ func (r *rhpRig) mine(n int) {
 		if err := r.s.cm.AddBlocks([]types.Block{blk}); err != nil {
 			r.e.Violationf(r.inv+".pool-minable", "block-rejected", "a block assembled from the pool was rejected: %v", err)
 		}
+		if r.rs != r.s {
+			// the renter's node catches up with the host's chain
+			r.rs.cm.AddBlocks(blocksOf(r.tree.ByID[blk.ID()].PathFromGenesis()[1:]))
+		}
 	}
 	r.syncAll()
 }
 
 func newRHPRig(e *sim.Env, inv string, ip simrhp.Interposer) *rhpRig {
+	return newRHPRigN(e, inv, ip, false)
+}
+
+func newRHPRigN(e *sim.Env, inv string, ip simrhp.Interposer, twoNodes bool) *rhpRig {
 	now := time.Now()
 	net := gen.NewNet(e, now, gen.NetOpts{MaxHeight: 200, Regime: "v2", Actors: 4})
 	r := &rhpRig{e: e, inv: inv, net: net, tree: gen.NewTree(net), now: now}
 	r.s = newChainSUT(e, net, simdisk.New())
+	r.rs = r.s
+	if twoNodes {
+		r.rs = newChainSUT(e, net, simdisk.New())
+	}
 	r.hostA, r.renterA = net.Actors[0], net.Actors[1]
 	hs, rs := e.Bytes(32), e.Bytes(32)
 	hs[30], rs[30] = hs[30]^0xa1, rs[30]^0xb2 // distinct even on an exhausted tape
@@ -213,7 +251,7 @@ func newRHPRig(e *sim.Env, inv string, ip simrhp.Interposer) *rhpRig {
 	r.renterKey = types.NewPrivateKeyFromSeed(rs)
 	r.hst, r.rst = newWalletStore(), newWalletStore()
 	r.hw = newWallet(e, inv, r.hostA, r.s, r.hst, &recSyncer{})
-	r.rw = newWallet(e, inv, r.renterA, r.s, r.rst, &recSyncer{})
+	r.rw = newWallet(e, inv, r.renterA, r.rs, r.rst, &recSyncer{})
 	e.OnCleanup(func() { r.hw.Close(); r.rw.Close() })
 	r.signer = &fundAndSign{r.rw, r.renterKey}
 
@@ -228,6 +266,9 @@ func newRHPRig(e *sim.Env, inv string, ip simrhp.Interposer) *rhpRig {
 		tip = r.tree.Extend(e, tip, gen.BlockOpts{Now: now, Miner: miner, MinGap: false})
 		if err := r.s.cm.AddBlocks([]types.Block{tip.Block}); err != nil {
 			e.Violationf(inv+".valid-accepted", "setup", "setup block rejected: %v", err)
+		}
+		if twoNodes {
+			r.rs.cm.AddBlocks([]types.Block{tip.Block})
 		}
 	}
 
@@ -258,7 +299,9 @@ func newRHPRig(e *sim.Env, inv string, ip simrhp.Interposer) *rhpRig {
 	r.server = rhp4.NewServer(r.hostKey, r.s.cm, r.contractor, r.hw, r.settings, r.sectors, rhp4.WithPriceTableValidity(r.priceValidity))
 	r.tr = simrhp.NewTransport(r.hostKey.PublicKey())
 	r.tr.Interpose = ip
-	go r.server.Serve(r.tr, zap.NewNop())
+	core, logs := observer.New(zapcore.ErrorLevel)
+	r.logs = logs
+	go r.server.Serve(r.tr, zap.New(core))
 	e.OnCleanup(func() {
 		r.tr.Close()
 		r.server.Close()
@@ -293,7 +336,7 @@ func (r *rhpRig) form(allowance, collateral types.Currency, duration uint64) rhp
 		allowance = min.Mul64(2)
 	}
 	r.e.Guard(r.inv+".panic", "RPCFormContract", func() {
-		res, err = rhp4.RPCFormContract(context.Background(), r.tr, r.s.cm, r.signer, r.cs(), r.prices, r.hostKey.PublicKey(), r.hw.Address(), proto4.RPCFormContractParams{
+		res, err = rhp4.RPCFormContract(context.Background(), r.tr, r.rs.cm, r.signer, r.rs.cm.TipState(), r.prices, r.hostKey.PublicKey(), r.hw.Address(), proto4.RPCFormContractParams{
 			RenterPublicKey: r.renterKey.PublicKey(),
 			RenterAddress:   r.rw.Address(),
 			Allowance:       allowance,
